@@ -195,6 +195,8 @@ func init() {
 			c.min("R-THRESHCONV", 7)
 			c.ruleVerifiedCommit()
 			c.min("R-VERIFIED", 5)
+			c.ruleAncestryGrandpaCommit()
+			c.min("R-ANCESTRYARGS", 2)
 		})
 	register("C21", "threshold-convention taint analysis on the voter paths (R-THRESHCONV), validation-before-store dominance (R-VERIFIED/vote)",
 		"Decides: on the voter's own paths (best final candidate, pre-voted block, possible selected blocks, finalisation attempt) every comparison of a vote total with a threshold-derived value is strict (> floor(2n/3)); a received vote is stored in the prevote/precommit maps only after, on every path, the signature check, the authority-membership lookup and validateVote succeeded, and validateVote checks that the block exists, that the vote's number equals the header's number, and that the block descends from the finalised head; votes from the node itself are rejected. "+
@@ -206,6 +208,8 @@ func init() {
 			c.min("R-THRESHCONV", 7)
 			c.ruleVerifiedVote()
 			c.min("R-VERIFIED/vote", 7)
+			c.ruleAncestryGrandpaVoter()
+			c.min("R-ANCESTRYARGS", 2)
 		})
 	register("C19", "comparator sign analysis (R-CMP/unsigned), accumulator read-before-write (R-ACCUM), threshold convention and formula of the weighted voter set (R-THRESHCONV/B)",
 		"Decides: no 3-way comparator in finality-grandpa / the justification verifier derives its result from an unsigned subtraction (the order of precommits and the integer width cannot change the round base); a repeated voter's weight is accumulated (the stored weight depends on the old weight); the weighted threshold is n - floor((n-1)/3) (evaluated for n=1..300) and every comparison of a weight with it is `>=` (reached) / `<` (not reached); in the justification verifier every precommit's signature check dominates the success return and precedes any early continue. "+
@@ -622,4 +626,99 @@ func (c *Ctx) ruleVerifiedVote() {
 			return ok && ex.Tuple == ssa.Value(desc) && ex.Index == 0 && truth
 		})
 	})
+}
+
+// R-ANCESTRYARGS: IsDescendantOf(ancestor, descendant) call sites pass the roles in the right order.
+type argRole func(v ssa.Value) bool
+
+func derivesFromCall(name string) argRole {
+	return func(v ssa.Value) bool {
+		for x := range backwardSlice(v, nil) {
+			if call, ok := x.(*ssa.Call); ok {
+				if fn := calleeFunc(&call.Call); fn != nil && fn.Name() == name {
+					return true
+				}
+			}
+		}
+		return false
+	}
+}
+
+func derivesFromField(name string) argRole {
+	return func(v ssa.Value) bool {
+		for x := range backwardSlice(v, nil) {
+			if _, fv, ok := fieldLoad(x); ok && fv != nil && fv.Name() == name {
+				return true
+			}
+			if fa, ok := x.(*ssa.FieldAddr); ok && fieldVar(fa) != nil && fieldVar(fa).Name() == name {
+				return true
+			}
+		}
+		return false
+	}
+}
+
+func derivesFromParam(i int) argRole {
+	return func(v ssa.Value) bool {
+		for x := range backwardSlice(v, nil) {
+			if p, ok := x.(*ssa.Parameter); ok && len(p.Parent().Params) > i && p.Parent().Params[i] == p {
+				return true
+			}
+		}
+		return false
+	}
+}
+
+func (c *Ctx) ruleAncestryArgs(rule, dir, fn string, ordinal int, ancestor, descendant argRole, what string) {
+	f := c.fn(dir, fn)
+	if f == nil {
+		return
+	}
+	n := 0
+	found := false
+	eachInstr(f, func(_ *ssa.BasicBlock, _ int, in ssa.Instruction) {
+		call, ok := in.(*ssa.Call)
+		if !ok {
+			return
+		}
+		fnc := calleeFunc(&call.Call)
+		if fnc == nil || fnc.Name() != "IsDescendantOf" {
+			return
+		}
+		n++
+		if n != ordinal {
+			return
+		}
+		found = true
+		args := call.Call.Args
+		a, d := args[len(args)-2], args[len(args)-1]
+		ok2 := ancestor(a) && descendant(d) && !(ancestor(d) && descendant(a) && !ancestor(a))
+		// swapped?
+		swapped := ancestor(d) && descendant(a) && !(ancestor(a) && descendant(d))
+		c.ob(rule, fmt.Sprintf("%s:IsDescendantOf#%d", relName(f.String()), ordinal), call.Pos(), ok2 && !swapped,
+			shortFn(f)+": IsDescendantOf(ancestor, descendant) must test "+what+"; the arguments are not in that order")
+	})
+	if !found {
+		c.ob(rule, fmt.Sprintf("%s:IsDescendantOf#%d", relName(f.String()), ordinal), f.Pos(), false, "ancestry test not found (anchor changed)")
+	}
+}
+
+func (c *Ctx) ruleAncestryGrandpaVoter() {
+	c.doc("R-ANCESTRYARGS", "IsDescendantOf(ancestor, descendant) role table: candidate-is-ancestor-of-prevoted-block in getBestFinalCandidate; finalised-head-is-ancestor-of-voted-block in validateVote")
+	c.ruleAncestryArgs("R-ANCESTRYARGS", gDir, "(*Service).getBestFinalCandidate", 1,
+		func(v ssa.Value) bool { return !derivesFromCall("getPreVotedBlock")(v) }, derivesFromCall("getPreVotedBlock"),
+		"that the candidate block (with >2/3 precommits) is an ancestor of the pre-voted block: only ancestors of the GHOST may be finalised")
+	c.ruleAncestryArgs("R-ANCESTRYARGS", gDir, "(*Service).validateVote", 1,
+		derivesFromField("head"), derivesFromParam(1),
+		"that the finalised head is an ancestor of the voted block")
+}
+
+func (c *Ctx) ruleAncestryGrandpaCommit() {
+	c.doc("R-ANCESTRYARGS", "commit verification: highest finalised block is an ancestor of the commit target; the commit target is an ancestor of each counted precommit's block")
+	c.ruleAncestryArgs("R-ANCESTRYARGS", gDir, "verifyCommitMessageJustification", 1,
+		derivesFromCall("GetHighestFinalisedHeader"), func(v ssa.Value) bool { return !derivesFromCall("GetHighestFinalisedHeader")(v) },
+		"that the highest finalised block is an ancestor of the commit's target")
+	c.ruleAncestryArgs("R-ANCESTRYARGS", gDir, "verifyCommitMessageJustification", 2,
+		func(v ssa.Value) bool { return !derivesFromField("Precommits")(v) }, derivesFromField("Precommits"),
+		"that the commit's target is an ancestor of (or equal to) the precommitted block: precommits for ancestors or other forks do not support the target")
 }
